@@ -373,12 +373,16 @@ def ex_UnaryOp(self, node, fr):
     if isinstance(node.op, ast.UAdd):
         return v
     if isinstance(node.op, ast.Not):
-        return T.mk_not(v)
+        return T.mk_not(T.truthy(v))
     return T.mk_call('invert', [v])
 
 
 def ex_BoolOp(self, node, fr):
     vs = [self.ev(v, fr) for v in node.values]
+    # (operands that are known to be lists count through their emptiness; the value of `a and b` is only used as a
+    # condition in this code base)
+    vs = [T.truthy(v) if (v.single_atom() is not None and v.single_atom().kind == 'attr' and v.single_atom().args[1] in T.LIST_ATTRS)
+          else v for v in vs]
     if isinstance(node.op, ast.And):
         return T.mk_and(vs)
     return T.mk_or(vs)
@@ -674,6 +678,15 @@ def _comp(self, node, fr, kind):
             elt = self.ev(node.elt, fr)
     finally:
         fr.env = env0
+    if len(gens) == 1 and len(gens[0].single_atom().args) == 1:
+        # an element that depends on the position only: the comprehension is determined by the number of items
+        # ([f(xs[i], xs[1:][i]) for pairs in zip(xs, xs[1:])]  ==  [f(xs[i], xs[i + 1]) for i in range(len(xs) - 1)])
+        lid0 = f'C{node.lineno}:{node.col_offset}:0'
+        if not any(a_.kind in ('elem', 'key') and a_.args and a_.args[-1] == lid0 for a_ in T.all_atoms(elt).values()):
+            it_ = gens[0].single_atom().args[0]
+            ia_ = it_.single_atom()
+            if ia_ is not None and ia_.kind == 'call' and ia_.args[0] in ('zip', 'enumerate', 'range'):
+                gens = [T.mk_tuple([T.mk_call('range', [self._trip(it_)])])]
     return Term.of(Atom('comp', kind, elt, tuple(gens)))
 
 
